@@ -899,6 +899,106 @@ def _method_object_to_function(mod: Module, fn: ast.FunctionDef) -> T.Optional[a
     return ast.fix_missing_locations(out)
 
 
+def _singledispatch_to_chain(mod: Module, fn: ast.FunctionDef) -> T.Optional[ast.FunctionDef]:
+    """Normal form for a `functools.singledispatch` generic function (closed-world reading of the module):
+        @singledispatch
+        def f(a, ..): DEFAULT                          def f(a, ..):
+        @f.register(K1)                         ->         if isinstance(a, K1): BODY1[a1 := a, ..]
+        def _(a1, ..): BODY1                               elif isinstance(a, K2): ..
+        ..                                                 else: DEFAULT
+    Dispatch picks the overload of the nearest class in type(a).__mro__, so the arms are ordered subclasses before their bases (classes of
+    this module; a registered class that is not a single-inheritance class of this module, a class registered twice, a registration outside
+    module level or by a call `f.register(K, g)`, defaults/varargs or a rebinding of a parameter name used by the default make the reading
+    fail -> Undecided).  Returns None when `fn` is not decorated with singledispatch (it is then read as written)."""
+    decos = [attr_chain(d) for d in fn.decorator_list]
+    if not any(d in ('functools.singledispatch', 'singledispatch') for d in decos):
+        return None
+    me = fn.name
+    if len(fn.decorator_list) != 1 or fn.args.vararg or fn.args.kwarg or fn.args.kwonlyargs or fn.args.posonlyargs or not fn.args.args:
+        raise Undecided(f'{me}: singledispatch function with a signature this rule does not read')
+    # every mention of `f.register` / `f.dispatch` / `f.registry` in the module must be a module-level decorator
+    overloads: T.List[T.Tuple[str, ast.FunctionDef]] = []
+    deco_nodes: T.Set[int] = set()
+    for st in mod.tree.body:
+        if not isinstance(st, ast.FunctionDef) or st is fn:
+            continue
+        for d in st.decorator_list:
+            target = d.func if isinstance(d, ast.Call) else d
+            if not (isinstance(target, ast.Attribute) and isinstance(target.value, ast.Name) and target.value.id == me):
+                continue
+            if target.attr != 'register' or len(st.decorator_list) != 1:
+                raise Undecided(f'{me}: overload {st.name} is decorated in a way this rule does not read')
+            if isinstance(d, ast.Call):
+                if len(d.args) != 1 or d.keywords or not isinstance(d.args[0], ast.Name):
+                    raise Undecided(f'{me}: registration {short(d)} is not for one named class')
+                kname = d.args[0].id
+            else:
+                ann = st.args.args[0].annotation if st.args.args else None
+                if isinstance(ann, ast.Constant) and isinstance(ann.value, str):
+                    ann = expr_of(ann.value)
+                if not isinstance(ann, ast.Name):
+                    raise Undecided(f'{me}: overload {st.name} is registered by an annotation this rule does not read')
+                kname = ann.id
+            deco_nodes.update(id(x) for x in ast.walk(d))
+            overloads.append((kname, st))
+    for n in ast.walk(mod.tree):
+        if isinstance(n, ast.Attribute) and isinstance(n.value, ast.Name) and n.value.id == me and id(n) not in deco_nodes:
+            raise Undecided(f'{me}: `{short(n)}` is used outside a module-level registration decorator')
+        if isinstance(n, (ast.Assign, ast.AugAssign, ast.AnnAssign, ast.Delete, ast.Global)) and any(isinstance(x, ast.Name) and x.id == me and isinstance(x.ctx, (ast.Store, ast.Del)) for x in ast.walk(n)):
+            raise Undecided(f'{me}: the generic function is rebound')
+    if not overloads:
+        raise Undecided(f'{me}: singledispatch function without overloads in this module')
+    names = [k for k, _ in overloads]
+    if len(set(names)) != len(names):
+        raise Undecided(f'{me}: a class is registered twice')
+
+    def ancestors(k: str) -> T.List[str]:
+        out: T.List[str] = []
+        cur = k
+        for _ in range(20):
+            if not mod.has_cls(cur):
+                raise Undecided(f'{me}: registered class {cur} is not a class of this module')
+            c = mod.cls(cur)
+            if c.keywords or len(c.bases) > 1:
+                raise Undecided(f'{me}: registered class {cur} has more than one base or a metaclass')
+            if not c.bases or norm(c.bases[0]) == 'object':
+                return out
+            if not isinstance(c.bases[0], ast.Name):
+                raise Undecided(f'{me}: base {short(c.bases[0])} of {cur}')
+            cur = c.bases[0].id
+            out.append(cur)
+        raise Undecided(f'{me}: class chain of {k} too deep')
+    anc = {k: ancestors(k) for k in names}
+    # subclasses first: sort by depth, deepest first (stable), which puts every class before each of its ancestors
+    order = sorted(overloads, key=lambda kv: -len(anc[kv[0]]))
+    params = [a.arg for a in fn.args.args]
+    chain: T.List[ast.stmt] = copy.deepcopy([x for x in fn.body])
+    for kname, ov in reversed(order):
+        a = ov.args
+        if a.vararg or a.kwarg or a.kwonlyargs or a.posonlyargs or a.defaults or len(a.args) != len(params):
+            raise Undecided(f'{me}: overload {ov.name} has a signature different from the generic function')
+        ren = {x.arg: p for x, p in zip(a.args, params) if x.arg != p}
+        body = copy.deepcopy(ov.body)
+        bound = {n.id for b in body for n in ast.walk(b) if isinstance(n, ast.Name)} | {x.name for b in body for x in ast.walk(b) if isinstance(x, (ast.FunctionDef, ast.Lambda)) and hasattr(x, 'name')}
+        if any(isinstance(x, (ast.FunctionDef, ast.Lambda, ast.Global, ast.Nonlocal)) for b in body for x in ast.walk(b)) or (set(ren.values()) & (bound - set(ren))):
+            raise Undecided(f'{me}: overload {ov.name} cannot be renamed onto the parameters of the generic function')
+        if ren:
+            class _R(ast.NodeTransformer):
+                def visit_Name(self, n: ast.Name) -> ast.AST:
+                    return ast.copy_location(ast.Name(id=ren[n.id], ctx=n.ctx), n) if n.id in ren else n
+            body = [_R().visit(b) for b in body]
+        # recursion through the overload's own name is not dispatch: leave it (it will be unreadable downstream), calls of `me` stay as they are
+        test = ast.Call(func=ast.Name(id='isinstance', ctx=ast.Load()), args=[ast.Name(id=params[0], ctx=ast.Load()), ast.Name(id=kname, ctx=ast.Load())], keywords=[])
+        chain = [ast.copy_location(ast.If(test=test, body=body, orelse=chain), ov)]
+    out = copy.deepcopy(fn)
+    out.decorator_list = []
+    out.body = chain
+    for n0 in ast.walk(out):
+        if not hasattr(n0, 'lineno') and isinstance(n0, (ast.stmt, ast.expr)):
+            ast.copy_location(n0, fn)
+    return ast.fix_missing_locations(out)
+
+
 _NF_CACHE: T.Dict[T.Tuple[str, str], ast.FunctionDef] = {}
 
 
@@ -908,6 +1008,7 @@ def nf(mod: Module, q: str) -> ast.FunctionDef:
     if key not in _NF_CACHE:
         fn = copy.deepcopy(mod.func(q))
         if '.' not in q:
+            fn = _singledispatch_to_chain(mod, fn) or fn     # type: ignore[arg-type]
             fn = _method_object_to_function(mod, fn) or fn     # type: ignore[arg-type]
         t = _NormalForm(mod, fn, q.split('.')[0] if '.' in q else None)     # type: ignore[arg-type]
         t.root = fn     # type: ignore[attr-defined]
